@@ -306,6 +306,9 @@ func (b *Balloon) AddBulk(eventBulkDigest []hashing.Digest) ([]*Snapshot, []*sto
 // against a certain balloon version.
 // It asks the hyper tree for this proof and returns the proof if there is no error.
 func (b *Balloon) QueryDigestMembershipConsistency(keyDigest hashing.Digest, version uint64) (*MembershipProof, error) {
+	if err := b.checkDigestLen(keyDigest); err != nil {
+		return nil, err
+	}
 	b.RLock()
 	defer b.RUnlock()
 	var proof MembershipProof
@@ -352,6 +355,16 @@ func (b *Balloon) QueryDigestMembershipConsistency(keyDigest hashing.Digest, ver
 	return &proof, nil
 }
 
+// checkDigestLen rejects digests that the hasher in use cannot have produced:
+// a longer one indexes past the hyper tree's cache, a shorter one is answered
+// with a meaningless proof.
+func (b *Balloon) checkDigestLen(keyDigest hashing.Digest) error {
+	if want := int(b.hasherF().Len() / 8); len(keyDigest) != want {
+		return fmt.Errorf("invalid digest length: %d bytes, expected %d", len(keyDigest), want)
+	}
+	return nil
+}
+
 // QueryMembership function is used when an event is given to ask for a membership proof against a
 // certain balloon version. It just hashes the event and ask QueryDigestMembershipConsistency.
 func (b *Balloon) QueryMembershipConsistency(event []byte, version uint64) (*MembershipProof, error) {
@@ -365,6 +378,9 @@ func (b *Balloon) QueryMembershipConsistency(event []byte, version uint64) (*Mem
 // against the latest balloon version.
 // It asks the hyper tree for this proof and returns the proof if there is no error.
 func (b *Balloon) QueryDigestMembership(keyDigest hashing.Digest) (*MembershipProof, error) {
+	if err := b.checkDigestLen(keyDigest); err != nil {
+		return nil, err
+	}
 	b.RLock()
 	defer b.RUnlock()
 	var proof MembershipProof
